@@ -5,6 +5,9 @@ Every generator takes a random.Random and returns JSON-able data; nothing here i
 from . import oracles
 
 LETTERS = "ACGU"
+# swarm: per structure one alphabet (the letters are arbitrary single characters as far as BPSEQ is concerned:
+# DNA, lower case, unknown N, the '?' that find_gaps inserts, modified-residue codes)
+ALPHABETS = ["ACGU"] * 12 + ["ACGT", "acgu", "ACGUN", "ACGU?", "ACGUXPI", "A", "GgCc"]
 
 
 def layout(arm_order, lengths, gaps, rng=None, letters=None):
@@ -31,7 +34,8 @@ def layout(arm_order, lengths, gaps, rng=None, letters=None):
         if rng is None:
             letters = "".join(LETTERS[i % 4] for i in range(n))
         else:
-            letters = "".join(rng.choice(LETTERS) for _ in range(n))
+            alphabet = rng.choice(ALPHABETS)
+            letters = "".join(rng.choice(alphabet) for _ in range(n))
     return oracles.triples_from(letters, pairs)
 
 
@@ -152,6 +156,31 @@ def gen_many(rng, min_stems=10, max_stems=16, max_len=3):
     # gaps: at least one unpaired position between blocks now and then, so adjacent stems do not all merge
     gaps = [rng.choice([0, 1, 1, 2]) for _ in range(len(order) + 1)]
     return {"triples": layout(order, lengths, gaps, rng), "family": "many:%d" % base}
+
+
+def gen_large(rng, min_stems=40, max_stems=110):
+    """A long molecule (hundreds of positions, dozens of stems, three-digit indexes) whose conflict graph is made
+    of many small components, so that both exact solvers stay fast: the size regime of real ribosomal fragments,
+    where size-triggered shortcuts (a heuristic above N regions, a cache only for long inputs) would live."""
+    target = rng.randint(min_stems, max_stems)
+    order, lengths = [], []
+    base = 0
+    while base < target:
+        kind = rng.choice(["hairpin", "hairpin", "hairpin", "nested2", "nested2", "htype", "kissing", "ladder3", "path3",
+                           "knot_in_loop", "star_side", "triangle_tail"])
+        t = TEMPLATES[kind]
+        k = max(t) + 1
+        block = [base + x for x in t]
+        block_len = [rng.randint(1, 6) for _ in range(k)]
+        base += k
+        if rng.random() < 0.3:  # wrap the block in an enclosing stem
+            block = [base] + block + [base]
+            block_len.append(rng.randint(1, 6))
+            base += 1
+        order += block
+        lengths += block_len
+    gaps = [rng.choice([0, 1, 2, 3, 5]) for _ in range(len(order) + 1)]
+    return {"triples": layout(order, lengths, gaps, rng), "family": "large:%d" % base}
 
 
 def gen_broom(rng, min_leaves=9, max_leaves=13):
